@@ -73,7 +73,7 @@ def vec(draw, k, cplx):
 def expr_case(draw):
     g = draw(gen.geom(nmax=4, exps=(-9, 3), maxcells=120))
     nd = len(g["n"])
-    k = draw(st.integers(1, 4))
+    k = draw(gen.nvdim_strategy())
     cplx = draw(st.integers(0, 3)) == 0
     want = draw(st.sampled_from(["V", "S"])) if k > 1 else "S"
     dtypes = {}
